@@ -117,6 +117,7 @@ struct FileCtx {
     stem: String,
     int_consts: BTreeMap<String, u64>,
     other_consts: BTreeMap<String, Expr>, // e.g. LTR_LEVEL = Level(0)
+    const_types: BTreeMap<String, Ty>,
     enums: BTreeMap<String, Vec<String>>, // unit-like enums declared in the file
     fns: Vec<FnInfo>,
 }
@@ -129,6 +130,7 @@ struct Tr<'a> {
     locals: Vec<(String, Ty, bool)>, // name, type, mutable
     fresh: u32,
     loops: Vec<Vec<String>>, // state variables of the enclosing loops (innermost last)
+    in_const: bool,          // inside a constant initialiser: evaluated by the compiler, overflow impossible at run time
 }
 
 fn last_ident(p: &syn::Path) -> String {
@@ -193,6 +195,11 @@ impl<'a> Tr<'a> {
                 }
                 if let Some(t) = self.lookup_local(&n) {
                     return t;
+                }
+                if let Some(t) = self.file.const_types.get(&n) {
+                    if *t != Ty::Other {
+                        return t.clone();
+                    }
                 }
                 if self.file.int_consts.contains_key(&n) {
                     return Ty::U8;
@@ -427,7 +434,11 @@ impl<'a> Tr<'a> {
         if let Some(e) = self.file.other_consts.get(&n) {
             let e = e.clone();
             let mut b = vec![];
-            let t = self.expr(&e, &mut b)?;
+            let was = self.in_const;
+            self.in_const = true;
+            let t = self.expr(&e, &mut b);
+            self.in_const = was;
+            let t = t?;
             if !b.is_empty() {
                 return Err(format!("constant {} is not pure", n));
             }
@@ -479,6 +490,15 @@ impl<'a> Tr<'a> {
                 let l = self.expr_h(&bi.left, &t, b)?;
                 let r = self.expr_h(&bi.right, &t, b)?;
                 let t = if t == Ty::Level { Ty::U8 } else { t };
+                if self.in_const && (t == Ty::U8 || t == Ty::Word) {
+                    // constant folding is done by rustc (an overflow would be a compile error)
+                    match bi.op {
+                        BinOp::Add(_) => return Ok(format!("({} + {})", l, r)),
+                        BinOp::Mul(_) => return Ok(format!("({} * {})", l, r)),
+                        BinOp::Sub(_) => return Ok(format!("({} - {})", l, r)),
+                        _ => {}
+                    }
+                }
                 if t == Ty::Word {
                     if let BinOp::Add(_) = bi.op {
                         return Ok(format!("({} + {})", l, r)); // machine-word overflow not modelled
@@ -1781,10 +1801,11 @@ fn collect(repo: &Path, rel: &str) -> R<FileCtx> {
     let f = parse(repo, rel)?;
     let stem = Path::new(rel).file_stem().unwrap().to_string_lossy().to_string();
     let stem = if stem == "mod" { "char_data".to_string() } else { stem };
-    let mut ctx = FileCtx { stem: stem.clone(), int_consts: int_consts(&f), other_consts: BTreeMap::new(), enums: BTreeMap::new(), fns: vec![] };
+    let mut ctx = FileCtx { stem: stem.clone(), int_consts: int_consts(&f), other_consts: BTreeMap::new(), const_types: BTreeMap::new(), enums: BTreeMap::new(), fns: vec![] };
     for it in &f.items {
         match it {
             Item::Const(c) => {
+                ctx.const_types.insert(c.ident.to_string(), ty_of_type(&c.ty, &syn::Generics::default()));
                 if !ctx.int_consts.contains_key(&c.ident.to_string()) {
                     ctx.other_consts.insert(c.ident.to_string(), (*c.expr).clone());
                 }
@@ -2062,6 +2083,7 @@ fn translate_fn(
         locals: f.params.iter().map(|(n, t, m)| (n.clone(), t.clone(), *m)).collect(),
         fresh: 0,
         loops: vec![],
+        in_const: false,
     };
     let mut nf = NeedsFlow { yes: f.params.iter().any(|p| p.2) };
     nf.visit_block(&f.item);
